@@ -246,8 +246,8 @@ fn check_group(r: &mut Report, conns: &[Conn], group: &[usize], alone: &[Vec<Vec
 }
 
 /// an HTTP exchange with chosen initial sequence numbers, optionally closed by FIN from both sides
-fn http_conn_isn(name: &str, e: &Ends, req: &[u8], resp: &[u8], cisn: u32, sisn: u32, fin: bool, t: u64) -> Conn {
-    let mut pkts = vec![(seg(e, true, SYN, cisn, &[], None), t), (seg(e, false, SYN | ACK, sisn, &[], None), t + 1)];
+fn http_conn_isn(name: &str, e: &Ends, req: &[u8], resp: &[u8], cisn: u32, sisn: u32, fin: bool, t: u64, syn_extra: u8) -> Conn {
+    let mut pkts = vec![(seg(e, true, SYN | syn_extra, cisn, &[], None), t), (seg(e, false, SYN | ACK, sisn, &[], None), t + 1)];
     if !req.is_empty() {
         pkts.push((seg(e, true, ACK | PSH, cisn.wrapping_add(1), req, None), t + 2));
     }
@@ -268,20 +268,26 @@ pub fn successions() -> Vec<(Conn, Conn)> {
     let req2 = b"GET /second HTTP/1.1\r\nHost: second.example\r\nUser-Agent: Mozilla/5.0 (X11) Firefox/99\r\nAccept: */*\r\n\r\n";
     let resp2 = b"HTTP/1.1 404 Not Found\r\nServer: nginx/1.2.3\r\nContent-Type: text/html\r\n\r\n";
     let e = Ends { cip: 40, cport: 46000, sip: 41, sport: 80, v6: false };
-    let succ_h1 = http_conn_isn("successor-http1", &e, req2, resp2, 700_000, 900_000, false, T0 + 100);
+    // the successor's SYN plain, as an ECN-setup SYN (ECE|CWR), and with PSH / URG set: all of them open a connection
     let (q, a) = (h2_request(&[("x-later", "2", Rep::LitIdxNewName)], &[], &[]), h2_response(&[("server", "late", Rep::LitNoIdx)], &[]));
-    let succ_h2 = http_conn_isn("successor-http2", &e, &q, &a, 5, 4_294_967_000, false, T0 + 100);
+    let mut succs = vec![];
+    for (tag, extra) in [("", 0u8), ("-ecn-syn", 0xc0), ("-syn-psh", 0x08), ("-syn-urg", 0x20)] {
+        succs.push(http_conn_isn(&format!("successor-http1{tag}"), &e, req2, resp2, 700_000, 900_000, false, T0 + 100, extra));
+        succs.push(http_conn_isn(&format!("successor-http2{tag}"), &e, &q, &a, 5, 4_294_967_000, false, T0 + 100, extra));
+    }
+    // a new connection whose sequence numbers continue right behind what the predecessor buffered
+    succs.push(http_conn_isn("successor-http1-isn-behind-buffered-bytes-ecn-syn", &e, req2, resp2, 1000 + 20, 5000 + 10, false, T0 + 100, 0xc0));
     let preds = vec![
-        http_conn_isn("complete-exchange", &e, req, resp, 1000, 5000, false, T0),
-        http_conn_isn("complete-exchange-then-fin", &e, req, resp, 1000, 5000, true, T0),
-        http_conn_isn("request-without-response", &e, req, &[], 1000, 5000, false, T0),
-        http_conn_isn("request-without-response-then-fin", &e, req, &[], 1000, 5000, true, T0),
-        http_conn_isn("handshake-only", &e, &[], &[], 1000, 5000, false, T0),
-        http_conn_isn("unfinished-head", &e, &req[..20], &resp[..10], 1000, 5000, false, T0),
-        http_conn_isn("binary-data", &e, &[0xffu8; 40], &[0x16, 3, 1, 0, 2, 1, 0], 1000, 5000, true, T0),
+        http_conn_isn("complete-exchange", &e, req, resp, 1000, 5000, false, T0, 0),
+        http_conn_isn("complete-exchange-then-fin", &e, req, resp, 1000, 5000, true, T0, 0),
+        http_conn_isn("request-without-response", &e, req, &[], 1000, 5000, false, T0, 0),
+        http_conn_isn("request-without-response-then-fin", &e, req, &[], 1000, 5000, true, T0, 0),
+        http_conn_isn("handshake-only", &e, &[], &[], 1000, 5000, false, T0, 0),
+        http_conn_isn("unfinished-head", &e, &req[..20], &resp[..10], 1000, 5000, false, T0, 0),
+        http_conn_isn("binary-data", &e, &[0xffu8; 40], &[0x16, 3, 1, 0, 2, 1, 0], 1000, 5000, true, T0, 0),
     ];
     for p in &preds {
-        for sc in [&succ_h1, &succ_h2] {
+        for sc in &succs {
             v.push((p.clone(), sc.clone()));
         }
     }
@@ -289,8 +295,8 @@ pub fn successions() -> Vec<(Conn, Conn)> {
     let e = Ends { cip: 42, cport: 46001, sip: 43, sport: 443, v6: false };
     let hello = hello_bytes("first.example");
     let hello2 = hello_bytes("second.example");
-    let tls = |name: &str, isn: u32, parts: Vec<&[u8]>, t: u64| -> Conn {
-        let mut pkts = vec![(seg(&e, true, SYN, isn, &[], None), t)];
+    let tls_syn = |name: &str, isn: u32, parts: Vec<&[u8]>, t: u64, syn_extra: u8| -> Conn {
+        let mut pkts = vec![(seg(&e, true, SYN | syn_extra, isn, &[], None), t)];
         let mut off = 1u32;
         for p in parts {
             pkts.push((seg(&e, true, ACK | PSH, isn.wrapping_add(off), p, None), t + off as u64));
@@ -298,9 +304,12 @@ pub fn successions() -> Vec<(Conn, Conn)> {
         }
         Conn { name: s(name), pkts }
     };
+    let tls = |name: &str, isn: u32, parts: Vec<&[u8]>, t: u64| -> Conn { tls_syn(name, isn, parts, t, 0) };
     let succ = tls("successor-clienthello", 800_000, vec![&hello2[..50], &hello2[50..]], T0 + 100);
+    let succ_ecn = tls_syn("successor-clienthello-ecn-syn", 800_000, vec![&hello2[..50], &hello2[50..]], T0 + 100, 0xc0);
     for p in [tls("complete-clienthello", 1000, vec![&hello[..]], T0), tls("unfinished-clienthello", 1000, vec![&hello[..60]], T0), tls("record-header-only", 1000, vec![&hello[..5]], T0), tls("application-data", 1000, vec![&[0x17, 3, 3, 0, 2, 1, 2]], T0)] {
-        v.push((p, succ.clone()));
+        v.push((p.clone(), succ.clone()));
+        v.push((p, succ_ecn.clone()));
     }
     v
 }
@@ -378,7 +387,7 @@ pub fn run(thorough: bool) -> Outcome {
     check_successions(&mut pre);
     Outcome {
         report: pre.merge(rep),
-        rule: "16 connections (TCP handshakes with timestamps, ClientHello in 1/2/3 segments incl. IPv6, two HTTP/1 exchanges sharing a server, HTTP/2 exchanges: static only / literal with indexing / referencing foreign dynamic entries / size update 0 / state change followed by a decoding error / self reference, garbage after SYN, a TLS flow sharing the HTTP client's endpoint): every unordered pair (thorough: every triple of the 8 shortest) in every order-preserving interleaving on fresh TCP, HTTP, TLS and unified analyzers (capacity 8), each packet's result compared with the isolated run; plus successions on one 4-tuple: 7 HTTP predecessors (complete, closed by FIN, request only, handshake only, unfinished head, binary) x HTTP/1 and HTTP/2 successors with other initial sequence numbers, 4 TLS predecessors x a ClientHello successor, the successor's results compared with its isolated run; distinct = distinct per-trace result vectors".into(),
+        rule: "16 connections (TCP handshakes with timestamps, ClientHello in 1/2/3 segments incl. IPv6, two HTTP/1 exchanges sharing a server, HTTP/2 exchanges: static only / literal with indexing / referencing foreign dynamic entries / size update 0 / state change followed by a decoding error / self reference, garbage after SYN, a TLS flow sharing the HTTP client's endpoint): every unordered pair (thorough: every triple of the 8 shortest) in every order-preserving interleaving on fresh TCP, HTTP, TLS and unified analyzers (capacity 8), each packet's result compared with the isolated run; plus successions on one 4-tuple: 7 HTTP predecessors (complete, closed by FIN, request only, handshake only, unfinished head, binary) x HTTP/1 and HTTP/2 successors with other initial sequence numbers whose SYN is plain, ECN-setup (ECE|CWR), SYN|PSH or SYN|URG, 4 TLS predecessors x a ClientHello successor (plain and ECN-setup SYN), the successor's results compared with its isolated run; distinct = distinct per-trace result vectors".into(),
         exhaustive: true,
         bounds: json!({"connections": conns.len(), "groups": groups.len(), "max_group": if thorough {3} else {2}}),
     }
